@@ -10,7 +10,9 @@ import (
 	"path/filepath"
 	"sort"
 	"strings"
+	"sync"
 	"testing"
+	"time"
 
 	"pgregory.net/rapid"
 	"verif/harness/internal/ev"
@@ -18,7 +20,7 @@ import (
 
 func TestMain(m *testing.M) { ev.Main(m) }
 
-const rule = "case = a generated package of two files (7-12 resp. 3-8 snippets out of 34 templates with robust triggers of SA4000, SA4006, SA4003, SA4013, SA4018, SA5009, SA1019, SA9003*, S1002, S1003, S1005, S1009, S1021, S1023, S1025, S1028, S1039, ST1003*, ST1005, ST1006, ST1012, ST1017, ST1023*, U1000 (funcs, vars, consts, types, fields), two checks on one line; * = non-default; the second file is a renamed copy with identical line numbers in half of the cases) plus N variants, each a copy of the package with ONE inserted directive: kind ignore|file-ignore; placement own line above a statement / first line of a block / above case / above else / above a declaration, its doc comment, a spec, a struct field / above a multi-line statement whose problem is on a later line / inside a multi-line statement / trailing comment of the previous line or of the statement itself / above the package clause / top, end, after imports / any line; names 1-3 of {exact id, other case, *, category glob, ? glob, check without a problem there, disabled check, U1000, u1000, U*, glob of another category, nonexistent}; with or without reason; check selection default | all | all,-X | inherit,-X | positive list, by flag or staticcheck.conf. All variants are packages of one module: one run with -show-ignored and one without give the baseline R0 (package p0) and every R1. Oracle: the attached node is computed with go/ast.NewCommentMap; S = problems of shift(R0) in the directive's file on the node's line (whole file for file-ignore) whose check matches a name as case-folded glob; R1 must be shift(R0) with exactly S ignored / absent. non-trivial = S non-empty while another problem on an adjacent line or of another check on the same line (file-ignore: in the same file or in the twin file) survives; distinct by (package, placement, name list)"
+const rule = "case = a generated package of two files (7-11 resp. 2-5 snippets out of 35 templates with robust triggers of SA4000, SA4006, SA4003, SA4013, SA4018, SA5009, SA1019, SA9003*, S1002, S1003, S1005, S1009, S1021, S1023, S1025, S1028, S1039, ST1003*, ST1005, ST1006, ST1012, ST1017, ST1023*, U1000 (funcs, vars, consts, types, fields), two checks on one line; * = non-default; the second file is a renamed copy with identical line numbers in 40% of the cases) plus N variants, each a copy of the package with ONE inserted directive: kind ignore|file-ignore; placement own line above a statement / first line of a block / above case / above else / above a declaration, its doc comment, a spec, a struct field / above a multi-line statement whose problem is on a later line / inside a multi-line statement / trailing comment of the previous line or of the statement itself / above the package clause / top, end, after imports / any line; names 1-3 of {exact id, other case, *, category glob, ? glob, check without a problem there, disabled check, U1000, u1000, U*, glob of another category, nonexistent}; with or without reason; check selection default | all | all,-X | inherit,-X | positive list, by flag or staticcheck.conf. All variants are packages of one module: one run with -show-ignored and one without give the baseline R0 (package p0) and every R1. Oracle: the attached node is computed with go/ast.NewCommentMap; S = problems of shift(R0) in the directive's file on the node's line (whole file for file-ignore) whose check matches a name as case-folded glob; R1 must be shift(R0) with exactly S ignored / absent. non-trivial = S non-empty while another problem on an adjacent line or of another check on the same line (file-ignore: in the same file or in the twin file) survives; distinct by (package, placement, name list)"
 
 // ---------------------------------------------------------------- calibration (steering hints only)
 
@@ -58,6 +60,56 @@ func calibrate(cache string) (map[int][]hint, error) {
 		}
 	}
 	return hints, nil
+}
+
+// ---------------------------------------------------------------- staticcheck cache
+//
+// Analysing the standard-library dependencies of the generated packages costs
+// 10-20 s of CPU with a cold cache. The cache is not under test here, so the
+// shards of one invocation share one cache directory below VERIF_OUT (owned
+// and removed by the driver); the first shard to arrive warms it with the
+// calibration run while the others wait.
+
+var (
+	cacheOnce sync.Once
+	cacheDir  string
+	cacheHint map[int][]hint
+	cacheErr  error
+)
+
+func sharedCache() (string, map[int][]hint, error) {
+	cacheOnce.Do(func() {
+		if os.Getenv("VERIF_OUT") == "" || ev.NShards() == 1 {
+			// stand-alone: a private cache below TMPDIR; the calibration run warms it
+			cacheDir, cacheErr = os.MkdirTemp("", "c10cache-")
+			if cacheErr == nil {
+				cacheHint, cacheErr = calibrate(cacheDir)
+			}
+			return
+		}
+		cacheDir = filepath.Join(ev.OutDir(), "c10-cache")
+		os.MkdirAll(cacheDir, 0o755)
+		lock, warm := cacheDir+".lock", cacheDir+".warm"
+		if err := os.Mkdir(lock, 0o755); err == nil {
+			cacheHint, cacheErr = calibrate(cacheDir)
+			os.WriteFile(warm, []byte("ok"), 0o644)
+			return
+		}
+		for i := 0; i < 600; i++ {
+			if _, err := os.Stat(warm); err == nil {
+				break
+			}
+			time.Sleep(250 * time.Millisecond)
+		}
+		cacheHint, cacheErr = calibrate(cacheDir)
+	})
+	return cacheDir, cacheHint, cacheErr
+}
+
+func dropPrivateCache() {
+	if cacheDir != "" && (os.Getenv("VERIF_OUT") == "" || ev.NShards() == 1) {
+		os.RemoveAll(cacheDir)
+	}
 }
 
 // ---------------------------------------------------------------- the property
@@ -103,12 +155,7 @@ func TestIgnore(t *testing.T) {
 	ev.Assume("an inserted //lint: comment does not change what the checks themselves find (the templates avoid the comment-sensitive checks S1008, ST1000, ST1020-ST1022); verified per case by the control copy and the exact comparison of all other problems")
 	ev.Assume("U1000: asserted only for the exact name U1000 (problems of unused objects on the attached line disappear, no new ones appear) and for directives none of whose names can match U1000 (unchanged); names matching U1000 only by case or glob are counted, not judged (the statement sets U1000 aside)")
 	loadCatalogue()
-	cache, err := os.MkdirTemp("", "c10cache-")
-	if err != nil {
-		t.Fatal(err)
-	}
-	defer os.RemoveAll(cache)
-	hints, err := calibrate(cache)
+	cache, hints, err := sharedCache()
 	if err != nil {
 		ev.Infra("calibration failed: %v", err)
 		t.Fatalf("calibration failed: %v", err)
@@ -225,9 +272,10 @@ func evalExit(e *ExitCase, cache string) (msg, infra string) {
 	}
 	defer os.RemoveAll(dir)
 	os.WriteFile(filepath.Join(dir, "go.mod"), []byte("module m\n\ngo 1.26.0\n"), 0o644)
-	for name, reason := range map[string]string{"ok": "reason", "bad": ""} {
+	plain := strings.Replace(e.src("reason"), "//lint:", "// not a directive: ", 1)
+	for name, src := range map[string]string{"ok": e.src("reason"), "bad": e.src(""), "plain": plain} {
 		os.MkdirAll(filepath.Join(dir, name), 0o755)
-		os.WriteFile(filepath.Join(dir, name, "a.go"), []byte(e.src(reason)), 0o644)
+		os.WriteFile(filepath.Join(dir, name, "a.go"), []byte(src), 0o644)
 	}
 	var sb strings.Builder
 	okRun, err := staticcheck(dir, cache, "-f", "json", "./ok")
@@ -237,23 +285,12 @@ func evalExit(e *ExitCase, cache string) (msg, infra string) {
 	if okRun.exit != 0 || len(okRun.byPkg["ok"]) != 0 {
 		fmt.Fprintf(&sb, "package whose only problems are suppressed by %q (with a reason): exit status %d, output %v; expected exit 0 and no output\n", "//lint:"+e.Kind+" "+e.Names, okRun.exit, multiset(okRun.byPkg["ok"], true))
 	}
-	badRun, err := staticcheck(dir, cache, "-f", "json", "./bad")
+	// the same package without the reason, and with the directive turned into a plain comment (the problems it would suppress)
+	badRun, err := staticcheck(dir, cache, "-f", "json", "./bad", "./plain")
 	if err != nil {
 		return "", err.Error()
 	}
-	okShown, err := staticcheck(dir, cache, "-f", "json", "-show-ignored", "./ok")
-	if err != nil {
-		return "", err.Error()
-	}
-	// the problems the directive would have suppressed
-	var want []string
-	for _, p := range okShown.byPkg["ok"] {
-		if p.Sev != "ignored" {
-			fmt.Fprintf(&sb, "-show-ignored on the suppressed package lists a problem that is not ignored: %s\n", p.key(true))
-		}
-		p.Sev = "error"
-		want = append(want, p.key(true))
-	}
+	want := multiset(badRun.byPkg["plain"], true)
 	if len(want) == 0 {
 		return "", "exit-status trigger produced no problem: " + e.Trigger
 	}
@@ -266,26 +303,28 @@ func evalExit(e *ExitCase, cache string) (msg, infra string) {
 		}
 		got = append(got, p.key(true))
 	}
-	sort.Strings(want)
 	sort.Strings(got)
 	if badRun.exit != 1 || ncompile != 1 || strings.Join(want, "\n") != strings.Join(got, "\n") {
 		fmt.Fprintf(&sb, "same package with the reason removed: exit status %d, %d malformed-directive error(s), other problems %v; expected exit 1, one error and the unsuppressed problems %v\n", badRun.exit, ncompile, got, want)
 	}
-	ev.Count("staticcheck_runs", 3)
+	ev.Count("staticcheck_runs", 2)
 	return sb.String(), ""
 }
 
 func TestReasonAndExitStatus(t *testing.T) {
-	cache, err := os.MkdirTemp("", "c10cache-")
-	if err != nil {
-		t.Fatal(err)
+	if ev.Shard()%4 != 0 {
+		return // a side property: a quarter of the shards is enough
 	}
-	defer os.RemoveAll(cache)
+	cache, _, err := sharedCache()
+	if err != nil {
+		ev.Infra("calibration failed: %v", err)
+		t.Fatalf("calibration failed: %v", err)
+	}
 	ev.Check(t, "TestReasonAndExitStatus", func(rt *rapid.T) {
 		tr := pick(rt, "trigger", exitTriggers)
 		e := &ExitCase{Trigger: tr.line, Kind: pick(rt, "kind", []string{"ignore", "file-ignore"})}
 		ids := strings.Split(tr.code, ",")
-		switch rapid.IntRange(0, 4).Draw(rt, "names") {
+		switch rng(rt, "names", 0, 4) {
 		case 0:
 			e.Names = tr.code
 		case 1:
@@ -327,12 +366,11 @@ func replayFile(t *testing.T, f, test string) {
 		ev.Infra("read %s: %v", f, err)
 		return
 	}
-	cache, err := os.MkdirTemp("", "c10cache-")
+	cache, _, err := sharedCache()
 	if err != nil {
-		ev.Infra("%v", err)
+		ev.Infra("calibration failed: %v", err)
 		return
 	}
-	defer os.RemoveAll(cache)
 	var msg string
 	ext := "json"
 	if strings.HasSuffix(f, ".exit.json") {
@@ -392,3 +430,33 @@ func TestReplay(t *testing.T) {
 		replayFile(t, f, "TestReplay")
 	}
 }
+
+// TestDump writes the module of one generated case to $C10_DUMP (debugging aid; inert otherwise).
+func TestDump(t *testing.T) {
+	dir := os.Getenv("C10_DUMP")
+	if dir == "" {
+		return
+	}
+	_, hints, err := sharedCache()
+	if err != nil {
+		t.Fatal(err)
+	}
+	c := rapid.Custom(func(rt *rapid.T) *Case {
+		c, err := genCase(rt, hints, ev.EnvInt("C10_VARIANTS", 12, 40))
+		if err != nil {
+			rt.Skip(err.Error())
+		}
+		return c
+	}).Example(int(ev.Seed()))
+	os.MkdirAll(dir, 0o755)
+	if err := writeModule(c, dir); err != nil {
+		t.Fatal(err)
+	}
+	js, _ := json.MarshalIndent(c, "", " ")
+	os.WriteFile(filepath.Join(dir, "case.json"), js, 0o644)
+	t.Logf("staticcheck %s", strings.Join(c.args(true), " "))
+}
+
+// TestZZCleanup runs last (tests run in source order) and removes the private
+// cache of a stand-alone run.
+func TestZZCleanup(t *testing.T) { dropPrivateCache() }
